@@ -36,6 +36,7 @@ from mashumaro.core.meta.helpers import (
     get_literal_values,
     get_type_origin,
     is_annotated,
+    is_final,
     is_generic,
     is_literal,
     is_named_tuple,
@@ -478,7 +479,7 @@ def on_special_typing_primitive(
         )
     elif is_type_var_tuple(instance.type):
         return get_schema(instance.derive(type=tuple[Any, ...]), ctx)
-    elif is_readonly(instance.type):
+    elif is_readonly(instance.type) or is_final(instance.type):
         return get_schema(instance.derive(type=args[0]), ctx)
     elif isinstance(instance.type, ForwardRef):
         evaluated = evaluate_forward_ref(
